@@ -33,7 +33,8 @@ def run(chk):
     q = chk.quick
     mx = (9, 6) if q else (12, 9)
     cfg = chk.path("host.cfg")
-    open(cfg, "w").write("SPECIFICATION HSpec\nCONSTANTS\n  P = 31723\n  MaxN = %d\n  MaxLen = %d\nINVARIANT TotalVerifier\nINVARIANT ShapeGuardExact\n"
+    open(cfg, "w").write("SPECIFICATION HSpec\nCONSTANTS\n  P = 31723\n  MaxN = %d\n  MaxLen = %d\n  LongLens = {31, 32, 33, 63, 64, 65, 70}\n"
+                         "INVARIANT TotalVerifier\nINVARIANT ShapeGuardExact\n"
                          "INVARIANT MandatoryIdentityRejected\nINVARIANT Emit\nCHECK_DEADLOCK FALSE\n" % mx)
     r = vlib.tlc_mc(chk, "MC_Hostile.tla", cfg, workers=8)
     grid = vlib.behaviours_from(r["out"])
@@ -76,7 +77,7 @@ def run(chk):
                                   {"curve": c, "program": pr, "mutation": b, "site": "ipp-list-length-mismatch" if b.get("site") == "verify-panic" else "decode"},
                                   b.get("what", ""))
     chk.finish(
-        rule="TLC enumerates the grid (gates 0..%d) x (|L|, |R|) in (0..%d)^2 plus every single field of the honest shape forced to the identity / to "
+        rule="TLC enumerates the grid (gates 0..%d) x (|L|, |R|) in (0..%d)^2 (and lengths 31,32,33,63,64,65,70 around the shift-width boundaries) plus every single field of the honest shape forced to the identity / to "
              "zero, checks that the specification's verifier is total there (TotalVerifier, ShapeGuardExact, MandatoryIdentityRejected) and prints every "
              "point; each is built by surgery on an honest proof and run through from_bytes + verify under catch_unwind on secq256k1, zorro, curve25519 "
              "(any panic is a violation; the verdict must be the model's) and on toy31723 with the exact verdict; %d seeded byte mutations per shape "
